@@ -149,7 +149,14 @@ Fixpoint pr2 (m : mode) (e : expr) {struct e} : list tok :=
       else if p <? binprec o' then paren disp else disp
     | MOperand q => if q <=? p then precbody else paren disp
     end
-  | EUn o x => TOp o :: pr2 (MOperand unary_prec) x
+  | EUn o x =>
+    (* wrapForPrecedence: a unary expression is parenthesised in the postfix
+       contexts (selector, index, call), which bind tighter *)
+    let body := TOp o :: pr2 (MOperand unary_prec) x in
+    match m with
+    | MOperand q => if unary_prec <? q then paren body else body
+    | _ => body
+    end
   | ESel x l => pr2 (MOperand highest_prec) x ++ [TP PERIOD; l]
   | EIdx x i => pr2 (MOperand highest_prec) x ++ TP LBRACK :: pr2 MDisp i ++ [TP RBRACK]
   | ECall f args =>
@@ -330,21 +337,8 @@ Fixpoint canon (e : expr) (q : nat) {struct e} : expr :=
   end.
 
 (* ---- where print2 deviates on trees without ParenExpr nodes ------------ *)
-
-Definition is_un (e : expr) : bool := match e with EUn _ _ => true | _ => false end.
-
-(* a unary expression directly in operand position of a selector, index or
-   call: wrapForPrecedence only parenthesises binary expressions *)
-Fixpoint unary_under_postfix (e : expr) : bool :=
-  match e with
-  | EAtom _ => false
-  | EBin _ x y => unary_under_postfix x || unary_under_postfix y
-  | EUn _ x => unary_under_postfix x
-  | ESel x _ => is_un x || unary_under_postfix x
-  | EIdx x i => is_un x || unary_under_postfix x || unary_under_postfix i
-  | ECall f a => is_un f || unary_under_postfix f || existsb unary_under_postfix a
-  | EParen x => unary_under_postfix x
-  end.
+(* (a unary operand of a postfix operator is parenthesised since the fix of
+   wrapForPrecedence; the remaining deviation is the flattening of chains) *)
 
 Definition same_chain_op (o : op) (e : expr) : bool :=
   match e with EBin o' _ _ => op_eqb o' o | _ => false end.
@@ -362,7 +356,7 @@ Fixpoint right_nested_chain (e : expr) : bool :=
   | EParen x => right_nested_chain x
   end.
 
-Definition v2_safe (e : expr) : bool := negb (unary_under_postfix e) && negb (right_nested_chain e).
+Definition v2_safe (e : expr) : bool := negb (right_nested_chain e).
 
 (* ---- spacing (position-free ASTs) ------------------------------------- *)
 
@@ -428,6 +422,11 @@ Fixpoint sp1 (e : expr) (q : nat) {struct e} : list (sp * tok) :=
     if is_paren x then sp1 x 0 else sparen (sp1 x 0)
   end.
 
+(* internal/pretty/ast.go intLitMergesWithPeriod: the head of a selector chain is
+   a decimal integer literal (the only INT spelling of this model) *)
+Definition is_int_atom (e : expr) : bool :=
+  match e with EAtom (TInt _) => true | _ => false end.
+
 Definition un_inner (e : expr) : option op :=
   match e with EUn o _ => Some o | _ => None end.
 
@@ -452,8 +451,13 @@ Fixpoint sp2 (m : mode) (e : expr) {struct e} : list (sp * tok) :=
              | Some o' => if v2_unary_merges o o' then Blank else Glue
              | None => Glue
              end in
-    (Glue, TOp o) :: set_first s (sp2 (MOperand unary_prec) x)
-  | ESel x l => sp2 (MOperand highest_prec) x ++ [(Glue, TP PERIOD); (Glue, l)]
+    let body := (Glue, TOp o) :: set_first s (sp2 (MOperand unary_prec) x) in
+    match m with
+    | MOperand q => if unary_prec <? q then sparen body else body
+    | _ => body
+    end
+  | ESel x l =>
+    sp2 (MOperand highest_prec) x ++ [(if is_int_atom x then Blank else Glue, TP PERIOD); (Glue, l)]
   | EIdx x i =>
     sp2 (MOperand highest_prec) x ++ (Glue, TP LBRACK) :: set_first Glue (sp2 MDisp i) ++ [(Glue, TP RBRACK)]
   | ECall f args =>
